@@ -365,7 +365,7 @@ Print Assumptions C01_nonvacuous.
    the self-check computed inside RETURNS a pattern, the parser model accepts it and it matches every test
    case; trie widening included.  PARTIAL in the sense of Props/C08.v C08_selfcheck_admissible_partial:
    non-verbose mode, candidate without raw VT/FF, case-sensitive. *)
-From Grex Require Proofs.ClosedBuild Proofs.SelfCheckTotal Model.SelfCheck.
+From Grex Require Proofs.ClosedBuild Proofs.SelfCheckTotal Proofs.SelfCheckVerbose Model.SelfCheck.
 Theorem C01_closed_build_total_sound_partial : forall isd is_ws,
   ColourStripBase.digit_ok isd -> ws_ok is_ws ->
   forall c db ws,
@@ -380,3 +380,19 @@ Theorem C01_closed_build_total_sound_partial : forall isd is_ws,
       /\ forall t, In t ws -> (t <> [] \/ K4 tcs = false) -> L_rast lit_cs cls_engine r t.
 Proof. exact ClosedBuild.closed_build_total_sound. Qed.
 Print Assumptions C01_closed_build_total_sound_partial.
+
+(* the same in verbose mode: "(?x)..." parses under the x flag (Proofs/ClosedBuild.v, SelfCheckVerbose.v) *)
+Theorem C01_closed_build_total_sound_verbose_partial : forall isd is_ws,
+  ColourStripBase.digit_ok isd -> ws_ok is_ws ->
+  forall c db ws,
+    let tcs := normalise c db ws in
+    let cls := grapheme_clusters c db tcs in
+    f_ci c = false ->
+    ws <> [] -> Forall (Forall scalar) ws -> oracle_ok db tcs ->
+    printable c -> f_verbose c = true -> ws_x is_ws ->
+    (forall e1, SelfCheckTotal.cand1 c cls = Some e1 -> SelfCheckTotal.no_vf (SelfCheckVerbose.cand_nv c e1)) ->
+    exists s fl r, SelfCheck.build_closed isd is_ws c db ws = Some s
+      /\ parse is_ws s = Some (fl, r) /\ fl_i fl = false /\ fl_x fl = true
+      /\ forall t, In t ws -> (t <> [] \/ K4 tcs = false) -> L_rast lit_cs cls_engine r t.
+Proof. exact ClosedBuild.closed_build_total_sound_verbose. Qed.
+Print Assumptions C01_closed_build_total_sound_verbose_partial.
